@@ -350,3 +350,140 @@ Proof.
   rewrite max_supported_exponent_val. cbn [bind].
   destruct (Z.gtb_spec (Z.abs e) (512 * P36)); [reflexivity|lia].
 Qed.
+
+(* ---- totality: inside the domain no range assertion fires ---- *)
+Open Scope Z_scope.
+
+Lemma bd_check_small : forall z, Z.abs z <= 2 ^ 1000 -> bd_check z = Ok z.
+Proof.
+  intros z H. unfold bd_check, bd_fits, bitlen, max_dec_bit_len. destruct (z =? 0) eqn:E; [reflexivity|].
+  apply Z.eqb_neq in E.
+  assert (Z.log2 (Z.abs z) <= 1000).
+  { replace 1000 with (Z.log2 (2 ^ 1000)) by (rewrite Z.log2_pow2; lia). apply Z.log2_le_mono. assumption. }
+  destruct (Z.leb_spec (Z.log2 (Z.abs z) + 1) 1144); [reflexivity|lia].
+Qed.
+
+Lemma chop_round_abs : forall d, Z.abs (chop_round P36 d) * P36 <= Z.abs d + P36.
+Proof. intros d. pose proof (chop_round_P36_err d). assert (0 < P36) by (vm_compute; reflexivity). lia. Qed.
+
+Lemma bd_mul_abs : forall a b, Z.abs (bd_mul a b) * P36 <= Z.abs a * Z.abs b + P36.
+Proof. intros a b. unfold bd_mul. pose proof (chop_round_abs (a * b)). rewrite Z.abs_mul in H. exact H. Qed.
+
+Lemma P36_lt : P36 < 2 ^ 120. Proof. vm_compute. reflexivity. Qed.
+
+Lemma exp2_loop_total : forall cs X xe h p n B,
+  0 <= X <= P36 -> 0 <= n -> Z.abs xe <= P36 + n -> Z.abs h <= B -> Z.abs p <= B -> 0 <= B ->
+  Forall (fun ab => Z.abs (fst ab) <= 2 * P36 /\ Z.abs (snd ab) <= 2 * P36) cs ->
+  n + Z.of_nat (length cs) <= 100 -> B + 5 * P36 * Z.of_nat (length cs) <= 2 ^ 200 ->
+  exists h' p', exp2_loop cs X xe h p = Ok (h', p') /\ Z.abs h' <= B + 5 * P36 * Z.of_nat (length cs) /\ Z.abs p' <= B + 5 * P36 * Z.of_nat (length cs).
+Proof.
+  pose proof P36_lt as HPl. assert (HP : 0 < P36) by (vm_compute; reflexivity).
+  assert (H200 : 2 ^ 200 <= 2 ^ 1000) by (apply Z.pow_le_mono_r; lia).
+  assert (H120 : 2 ^ 120 * 8 <= 2 ^ 200) by (vm_compute; discriminate).
+  assert (HPlo : 1000 <= P36) by (vm_compute; discriminate).
+  assert (HPsq : P36 <= P36 * P36) by nia.
+  induction cs as [|[a b] r IH]; intros X xe h p n B HX Hn Hxe Hh Hp HB Hcs Hlen HBB.
+  - exists h, p. cbn [exp2_loop length]. rewrite Z.mul_0_r, Z.add_0_r. auto.
+  - inversion Hcs as [|? ? [Ha Hb] Hcs']; subst. cbn [fst snd] in Ha, Hb.
+    cbn [length] in Hlen, HBB |- *. rewrite Nat2Z.inj_succ in Hlen, HBB |- *.
+    cbn [exp2_loop].
+    set (xe' := bd_mul xe X).
+    assert (Hxe' : Z.abs xe' <= P36 + (n + 1)).
+    { pose proof (bd_mul_abs xe X) as M. fold xe' in M. rewrite (Z.abs_eq X) in M by lia.
+      assert (M2 : Z.abs xe * X <= (P36 + n) * P36) by (apply Z.mul_le_mono_nonneg; lia).
+      apply Z.mul_le_mono_pos_r with (p := P36); [assumption|]. lia. }
+    unfold bdc_mul at 1. fold xe'. rewrite bd_check_small by lia. cbn [bind].
+    set (ta := bd_mul a xe'). set (tb := bd_mul b xe').
+    assert (Hxe'' : Z.abs xe' <= 2 * P36) by lia.
+    assert (Hta : Z.abs ta <= 5 * P36).
+    { pose proof (bd_mul_abs a xe') as M. fold ta in M.
+      assert (M2 : Z.abs a * Z.abs xe' <= 2 * P36 * (2 * P36)) by (apply Z.mul_le_mono_nonneg; lia).
+      apply Z.mul_le_mono_pos_r with (p := P36); [assumption|]. lia. }
+    assert (Htb : Z.abs tb <= 5 * P36).
+    { pose proof (bd_mul_abs b xe') as M. fold tb in M.
+      assert (M2 : Z.abs b * Z.abs xe' <= 2 * P36 * (2 * P36)) by (apply Z.mul_le_mono_nonneg; lia).
+      apply Z.mul_le_mono_pos_r with (p := P36); [assumption|]. lia. }
+    unfold bdc_mul at 1. fold ta. rewrite bd_check_small by lia. cbn [bind].
+    unfold bdc_add at 1. rewrite bd_check_small by lia. cbn [bind].
+    unfold bdc_mul at 1. fold tb. rewrite bd_check_small by lia. cbn [bind].
+    unfold bdc_add at 1. rewrite bd_check_small by lia. cbn [bind].
+    destruct (IH X xe' (h + ta) (p + tb) (n + 1) (B + 5 * P36)) as (h' & p' & E & A1 & A2); try assumption; try lia.
+    exists h', p'. split; [exact E|]. split; lia.
+Qed.
+
+Lemma gen_coeffs_bounded :
+  Forall (fun ab => Z.abs (fst ab) <= 2 * P36 /\ Z.abs (snd ab) <= 2 * P36) (combine (tl exp2_num_coeffs) (tl exp2_den_coeffs)) /\
+  Z.abs (hd 0 exp2_num_coeffs) <= 2 * P36 /\ Z.abs (hd 0 exp2_den_coeffs) <= 2 * P36.
+Proof. split; [|split; vm_compute; discriminate]. repeat constructor; vm_compute; discriminate. Qed.
+
+(* positivity of the denominator actually computed (from the real-number bounds) *)
+Lemma loop_denominator_positive : forall X Hh Pp, 0 < X < P36 ->
+  exp2_loop (combine (tl exp2_num_coeffs) (tl exp2_den_coeffs)) X P36 (hd 0 exp2_num_coeffs) (hd 0 exp2_den_coeffs) = Ok (Hh, Pp) ->
+  0 < Pp.
+Proof.
+  intros X Hh Pp HX EL.
+  destruct gen_len as [L1 L2].
+  assert (Hx : (0 <= bdR X <= 1)%R).
+  { unfold bdR. pose proof u36_T36 as HU. pose proof T36_pos. pose proof u36_pos. destruct HX as [HX1 HX2]. apply IZR_lt in HX1, HX2. rewrite IZR_P36 in HX2. split; nra. }
+  pose proof u36_pos as Hu. pose proof u36_le as Hule.
+  assert (Hu30 : (u36 <= 1 / 1000)%R) by (eapply Rle_trans; [exact Hule|]; interval with (i_prec 128)).
+  destruct (exp2_loop_err _ _ _ _ _ _ _ 1%R (bdR (hd 0 exp2_num_coeffs)) (bdR (hd 0 exp2_den_coeffs)) 0%Z 0%R 0%R EL Hx ltac:(lra) ltac:(lia)) as [R1 R2].
+  { rewrite bdR_P36. replace (1 - 1)%R with 0%R by ring. rewrite Rabs_R0. simpl. lra. }
+  { match goal with |- (Rabs (?a - ?a) <= _)%R => replace (a - a)%R with 0%R by ring end. rewrite Rabs_R0. lra. }
+  { match goal with |- (Rabs (?a - ?a) <= _)%R => replace (a - a)%R with 0%R by ring end. rewrite Rabs_R0. lra. }
+  { exact gen_coeffs_small. }
+  rewrite map_snd_combine in R2 by assumption. rewrite combine_length, <- L1, Nat.min_id in R2.
+  assert (Hl6 : (INR (length (tl exp2_num_coeffs)) <= 6)%R).
+  { apply le_INR in L2. replace (INR 6) with 6%R in L2 by (simpl; ring). exact L2. }
+  assert (Hpx : pR (bdR X) = (bdR (hd 0%Z exp2_den_coeffs) + polyR (tl exp2_den_coeffs) (bdR X) (1 * bdR X))%R).
+  { unfold pR. rewrite den_shape at 1. cbn [polyR]. ring. }
+  rewrite <- Hpx, Rplus_0_l in R2. pose proof (pR_bounds _ Hx) as Hp.
+  apply Rabs_le_inv' in R2.
+  assert (H6 : (INR (length (tl exp2_num_coeffs)) * u36 <= 6 * u36)%R) by (apply Rmult_le_compat_r; lra).
+  apply lt_IZR. unfold bdR in R2, Hp. simpl.
+  destruct (Rlt_le_dec 0 (IZR Pp)) as [|Hneg]; [assumption|exfalso].
+  assert (IZR Pp * u36 <= 0)%R by nra. lra.
+Qed.
+
+Lemma exp2_rational_approx_total : forall X, 0 <= X <= P36 -> exists r, exp2_rational_approx X = Ok r /\ Z.abs r <= 2 ^ 600.
+Proof.
+  intros X HX. assert (HP : 0 < P36) by (vm_compute; reflexivity). pose proof P36_lt as HPl.
+  assert (H600 : 2 ^ 121 <= 2 ^ 600) by (apply Z.pow_le_mono_r; lia).
+  unfold exp2_rational_approx, exp2_rational_approx_with.
+  destruct (Z.ltb_spec X 0); [lia|]. destruct (Z.gtb_spec X P36); [lia|]. cbn [orb].
+  destruct (Z.eqb_spec X 0); [exists P36; split; [reflexivity|lia]|].
+  destruct (Z.eqb_spec X P36); [exists two_bigdec; split; [reflexivity|rewrite two_bigdec_val; lia]|].
+  rewrite num_shape, den_shape.
+  destruct gen_coeffs_bounded as (Hcs & Hh0 & Hp0). destruct gen_len as [L1 L2].
+  assert (Hlen : Z.of_nat (length (combine (tl exp2_num_coeffs) (tl exp2_den_coeffs))) <= 6).
+  { rewrite combine_length, <- L1, Nat.min_id. lia. }
+  assert (H200 : 2 ^ 120 * 64 <= 2 ^ 200) by (vm_compute; discriminate).
+  destruct (exp2_loop_total (combine (tl exp2_num_coeffs) (tl exp2_den_coeffs)) X P36 (hd 0 exp2_num_coeffs) (hd 0 exp2_den_coeffs) 0 (2 * P36)) as (h' & p' & E & A1 & A2); try assumption; try lia.
+  rewrite E. cbn [bind].
+  pose proof (loop_denominator_positive X h' p' ltac:(lia) E) as Hpos.
+  unfold bdc_quo. destruct (Z.eqb_spec p' 0); [lia|].
+  assert (Hq : Z.abs (bd_quo h' p') <= 2 ^ 600).
+  { unfold bd_quo. pose proof (chop_round_abs (Z.quot (h' * P72) p')) as C.
+    assert (Hquot : Z.abs (Z.quot (h' * P72) p') <= Z.abs h' * P72).
+    { rewrite <- Z.quot_abs by lia. rewrite Z.abs_mul, (Z.abs_eq P72) by (vm_compute; discriminate).
+      apply Z.quot_le_upper_bound; [lia|]. assert (0 <= Z.abs h' * P72) by (apply Z.mul_nonneg_nonneg; [lia|vm_compute; discriminate]). nia. }
+    assert (H72 : P72 < 2 ^ 240) by (vm_compute; reflexivity).
+    assert (Hl5 : 5 * P36 * Z.of_nat (length (combine (tl exp2_num_coeffs) (tl exp2_den_coeffs))) <= 5 * P36 * 6) by (apply Z.mul_le_mono_nonneg_l; lia).
+    assert (Hh' : Z.abs h' <= 2 ^ 126) by (assert (2 * P36 + 5 * P36 * 6 <= 2 ^ 126) by (vm_compute; discriminate); lia).
+    assert (2 ^ 126 * 2 ^ 240 + 2 ^ 120 <= 2 ^ 600) by (vm_compute; discriminate). nia. }
+  assert (H1000 : 2 ^ 600 <= 2 ^ 1000) by (apply Z.pow_le_mono_r; lia).
+  rewrite bd_check_small by lia. eexists; split; [reflexivity|assumption].
+Qed.
+
+Lemma exp2_total : forall e, 0 <= e <= 512 * P36 -> exists r, exp2 e = Ok r.
+Proof.
+  intros e He. assert (HP : 0 < P36) by (vm_compute; reflexivity). pose proof P36_lt as HPl.
+  unfold exp2. destruct (Z.ltb_spec e 0); [lia|]. rewrite max_supported_exponent_val. cbn [bind].
+  destruct (Z.gtb_spec (Z.abs e) (512 * P36)); [lia|].
+  unfold bd_truncate_dec.
+  assert (Hfe : 0 <= e - Z.quot e P36 * P36 < P36).
+  { pose proof (Z.quot_rem' e P36). pose proof (Z.rem_bound_pos e P36 ltac:(lia) HP). lia. }
+  unfold bdc_sub. rewrite bd_check_small by (assert (2 ^ 120 <= 2 ^ 1000) by (apply Z.pow_le_mono_r; lia); lia). cbn [bind].
+  destruct (exp2_rational_approx_total (e - Z.quot e P36 * P36) ltac:(lia)) as (r & Er & _). rewrite Er. cbn [bind].
+  eexists; reflexivity.
+Qed.
